@@ -2433,3 +2433,12 @@ mutant("c16-f58-raw-options-under-the-lock", "C16", "C16-D7", "adapter/adapter_m
        "	opts = normalizeBroadcastOptions(opts)\n\n	a.mu.Lock()\n", "	a.mu.Lock()\n")
 mutant("c16-f59-headers-written-into-shared-dial-options", "C16", "C16-D8", "engine.io/transport/websocket/client.go",
        "		dialOptions.HTTPHeader = header\n", "		dialOptions.HTTPHeader = header\n		if t.dialOptions != nil {\n			t.dialOptions.HTTPHeader = header\n		}\n")
+
+# F60
+mutant("c08-f60-recovered-only-ever-set", "C08", "C08-D5", "client_socket.go",
+       """	s.setRecovered(ok && v.PID != "" && pid == adapter.PrivateSessionID(v.PID))
+""",
+       """	if ok && v.PID != "" && pid == adapter.PrivateSessionID(v.PID) {
+		s.setRecovered(true)
+	}
+""")
